@@ -5,6 +5,14 @@
 // through the add-only hook /repo/yoda/export_verif.go. Requests, data sources and the selected validator sets
 // are produced by the real chain (sim), the RPC stub answers the daemon's ABCI queries from that chain's app,
 // the executor is a stub whose outcome per (request id, external id) is part of the generated case.
+//
+// One case is a sequence of ROUNDS handled by the SAME daemon Context and the same file cache directory (the daemon
+// is a long-lived process): round 1 is described by the top-level fields of the case, later rounds by Rounds. Before
+// the requests of a later round (Edits) and between the requests and their handling (LateEdits, any round) the owner
+// of the data sources edits them with real MsgEditDataSource transactions: new executable bytes (new hash), the same
+// bytes, [do-not-modify], fee/treasury only, or an edit by a non-owner (refused by the chain). Every oracle is
+// evaluated after every round; in addition the executable the executor is handed must be the data source's
+// executable on the chain (at request time = the hash in the raw_request event, or at handling time).
 package c19
 
 import (
@@ -84,6 +92,32 @@ type c19Tx struct {
 	Bad  bool     `json:"bad,omitempty"` // last message asks for more validators than exist => whole tx fails on chain
 }
 
+// c19Edit is one MsgEditDataSource sent in a block of its own kind (one tx per edit).
+type c19Edit struct {
+	DS        int    `json:"ds"`   // index into DSs (mod len)
+	Kind      string `json:"kind"` // exec (new bytes from Len/Seed) | same (the current bytes again) | nomod ([do-not-modify])
+	Len       int    `json:"len,omitempty"`
+	Seed      int    `json:"seed,omitempty"`
+	Cached    bool   `json:"cached,omitempty"`     // (new hash only) the new file is already in the daemon's file cache
+	PermFail  bool   `json:"permfail,omitempty"`   // (new hash only) the new file can never be fetched from the node
+	Fee       int64  `json:"fee,omitempty"`        // new fee in uband
+	Treasury  int    `json:"treasury,omitempty"`   // 0 = the owner, i>0 = operator of validator i-1 (mod)
+	BadSender bool   `json:"bad_sender,omitempty"` // sent by an account that is not the owner: refused, nothing changes
+}
+
+// c19Round is one later round of the same daemon: chain-side edits, new requests, handling.
+type c19Round struct {
+	Edits     []c19Edit `json:"edits,omitempty"`      // block before this round's requests
+	LateEdits []c19Edit `json:"late_edits,omitempty"` // block after the requests, before the daemon handles them
+	Txs       []c19Tx   `json:"txs"`
+	Mode      string    `json:"mode"`
+	Rot       int       `json:"rot,omitempty"`
+	Rev       bool      `json:"rev,omitempty"`
+	Ghost     bool      `json:"ghost,omitempty"`
+	StoreFail int       `json:"store_fail,omitempty"` // the first k /store queries of this round fail
+	DataFail  int       `json:"data_fail,omitempty"`  // the first k Query/Data queries (of fetchable files) of this round fail
+}
+
 type c19Case struct {
 	NVals     int     `json:"nvals"`
 	Active    []bool  `json:"active"`
@@ -101,6 +135,9 @@ type c19Case struct {
 	NKeys     int     `json:"nkeys"`                // 1 or 3 reporter keys
 	Procs     int     `json:"procs,omitempty"`      // GOMAXPROCS for this case (0 = leave)
 	ExclShort int     `json:"excl_short,omitempty"` // number of short executables remapped because of the known finding
+	// later rounds handled by the same daemon Context (round 1 = the fields above)
+	LateEdits []c19Edit  `json:"late_edits,omitempty"` // round 1: edits between the requests and their handling
+	Rounds    []c19Round `json:"rounds,omitempty"`
 }
 
 const sigCrash = "C19/daemon-crash"
@@ -115,6 +152,141 @@ func minExecLen() int {
 		return 32
 	}
 	return 1
+}
+
+func genExecLen(rt *rapid.T, minLen int, excl *int) int {
+	var l int
+	switch gen.Pick(rt, "lencat", 30, 12, 28, 20, 10) {
+	case 0:
+		l = gen.Range(rt, "short", 1, 31)
+	case 1:
+		l = gen.OneOf(rt, "bnd", 24, 25, 31, 32, 33)
+	case 2:
+		l = gen.Range(rt, "mid", 34, 300)
+	case 3:
+		l = gen.Range(rt, "big", 301, 4095)
+	default:
+		l = gen.OneOf(rt, "edge", 1, 4096, 4096, 512, 513)
+	}
+	if l < minLen {
+		l = minLen + l // stays small, but outside the excluded region
+		*excl++
+	}
+	return l
+}
+
+// genTxs draws the request transactions of one round. prefer (may be empty) lists data source indices the round
+// should ask on purpose: the first raw request of the first request takes one of them and that request tends to ask
+// every active validator, so that the daemon's validator is selected whenever it is active.
+func genTxs(rt *rapid.T, nds, nActive int, prefer []int, used map[int]bool) []c19Tx {
+	var out []c19Tx
+	ntx := rapid.IntRange(1, 3).Draw(rt, "ntx")
+	for t := 0; t < ntx; t++ {
+		tx := c19Tx{Bad: gen.Chance(rt, "bad", 1, 15)}
+		nreq := rapid.IntRange(1, 3).Draw(rt, "nreq")
+		for r := 0; r < nreq; r++ {
+			ask := gen.Range(rt, "ask", 1, nActive)
+			target := t == 0 && r == 0 && len(prefer) > 0 && gen.Chance(rt, "target", 4, 5)
+			if target {
+				tx.Bad = false
+				if gen.Chance(rt, "askall", 3, 4) {
+					ask = nActive
+				}
+			}
+			q := c19Req{Ask: ask, Min: gen.Range(rt, "min", 1, ask), Client: rapid.StringMatching(`[a-z]{0,4}`).Draw(rt, "client")}
+			nraw := gen.OneOf(rt, "nraw", 1, 2, 2, 3, 3, 4, 5, 6)
+			usedEID := map[uint64]bool{}
+			prev := 0
+			for j := 0; j < nraw; j++ {
+				ds := gen.Uniform(rt, "ds", nds)
+				if j > 0 && gen.Chance(rt, "repeat", 1, 3) {
+					ds = prev
+				}
+				if target && j == 0 {
+					ds = prefer[gen.Uniform(rt, "prefds", len(prefer))]
+				}
+				prev = ds
+				used[ds] = true
+				eid := uint64(gen.OneOf(rt, "eid", 1, 2, 3, 4, 5, 6, 7, 100, 255, 256, 65535, 1<<31-1))
+				for usedEID[eid] {
+					eid++
+				}
+				usedEID[eid] = true
+				raw := c19Raw{DS: ds, EID: eid, Calldata: rapid.SliceOfN(rapid.Byte(), 0, 20).Draw(rt, "calldata")}
+				switch gen.Pick(rt, "kind", 5, 3, 2) {
+				case 0:
+					raw.Kind, raw.Code = "ok", 0
+				case 1:
+					raw.Kind, raw.Code = "ok", gen.OneOf[uint32](rt, "code", 1, 2, 111, 126, 255, 256, 1<<32-1)
+				default:
+					raw.Kind = "err"
+				}
+				raw.OutLen = gen.OneOf(rt, "outlen", 0, 0, 1, 8, 24, 100, 512, 600)
+				raw.OutSeed = gen.Uniform(rt, "outseed", 250)
+				raw.DelayUs = gen.OneOf(rt, "delay", 0, 0, 0, 20, 100, 400, 1500)
+				q.Raws = append(q.Raws, raw)
+			}
+			tx.Reqs = append(tx.Reqs, q)
+		}
+		out = append(out, tx)
+	}
+	return out
+}
+
+func genFails(rt *rapid.T, maxTry int) (storeFail, dataFail int) {
+	switch gen.Pick(rt, "storefail", 60, 32, 8) {
+	case 1:
+		if maxTry > 1 {
+			storeFail = gen.Range(rt, "sf", 1, maxTry-1)
+		}
+	case 2:
+		storeFail = gen.Range(rt, "sfx", maxTry, 2*maxTry)
+	}
+	switch gen.Pick(rt, "datafail", 50, 30, 20) {
+	case 1:
+		if maxTry > 1 {
+			dataFail = gen.Range(rt, "df", 1, maxTry-1)
+		}
+	case 2:
+		dataFail = gen.Range(rt, "dfx", maxTry, 3*maxTry)
+	}
+	return
+}
+
+// genEdit draws one data-source edit. usedList = data sources some earlier round asked (preferred target).
+func genEdit(rt *rapid.T, nds, nvals, minLen int, usedList []int, excl *int) c19Edit {
+	e := c19Edit{DS: gen.Uniform(rt, "eds", nds)}
+	if len(usedList) > 0 && gen.Chance(rt, "eused", 3, 4) {
+		e.DS = usedList[gen.Uniform(rt, "eusedi", len(usedList))]
+	}
+	switch gen.Pick(rt, "ekind", 70, 12, 18) {
+	case 0:
+		e.Kind = "exec"
+		e.Len = genExecLen(rt, minLen, excl)
+		e.Seed = gen.Range(rt, "eseed", 3, 8)
+		if gen.Chance(rt, "eseedold", 1, 6) {
+			e.Seed = gen.Uniform(rt, "eseedo", 3) // may re-create the bytes some data source had at genesis
+		}
+		e.Cached = gen.Chance(rt, "ecached", 1, 4)
+		e.PermFail = gen.Chance(rt, "epermfail", 1, 8)
+	case 1:
+		e.Kind = "same"
+	default:
+		e.Kind = "nomod"
+	}
+	e.Fee = gen.OneOf[int64](rt, "efee", 0, 0, 0, 1, 1000)
+	e.Treasury = gen.Uniform(rt, "etreasury", nvals+1)
+	e.BadSender = gen.Chance(rt, "ebadsender", 1, 12)
+	return e
+}
+
+func sortedKeys(m map[int]bool) []int {
+	out := make([]int, 0, len(m))
+	for k := range m {
+		out = append(out, k)
+	}
+	sort.Ints(out)
+	return out
 }
 
 func genC19(rt *rapid.T) c19Case {
@@ -132,89 +304,56 @@ func genC19(rt *rapid.T) c19Case {
 	c.Me = gen.Uniform(rt, "me", c.NVals)
 	nds := rapid.IntRange(1, 4).Draw(rt, "nds")
 	for i := 0; i < nds; i++ {
-		var l int
-		switch gen.Pick(rt, "lencat", 30, 12, 28, 20, 10) {
-		case 0:
-			l = gen.Range(rt, "short", 1, 31)
-		case 1:
-			l = gen.OneOf(rt, "bnd", 24, 25, 31, 32, 33)
-		case 2:
-			l = gen.Range(rt, "mid", 34, 300)
-		case 3:
-			l = gen.Range(rt, "big", 301, 4095)
-		default:
-			l = gen.OneOf(rt, "edge", 1, 4096, 4096, 512, 513)
-		}
-		if l < minLen {
-			l = minLen + l // stays small, but outside the excluded region
-			c.ExclShort++
-		}
+		l := genExecLen(rt, minLen, &c.ExclShort)
 		c.DSs = append(c.DSs, c19DS{Len: l, Seed: gen.Uniform(rt, "seed", 3),
 			Cached: gen.Chance(rt, "cached", 1, 3), PermFail: gen.Chance(rt, "permfail", 1, 6)})
 	}
 	c.Mode = gen.OneOf(rt, "mode", "direct", "direct", "direct-go", "tx", "tx", "tx-go")
-	ntx := rapid.IntRange(1, 3).Draw(rt, "ntx")
-	for t := 0; t < ntx; t++ {
-		tx := c19Tx{Bad: gen.Chance(rt, "bad", 1, 15)}
-		nreq := rapid.IntRange(1, 3).Draw(rt, "nreq")
-		for r := 0; r < nreq; r++ {
-			ask := gen.Range(rt, "ask", 1, nActive)
-			q := c19Req{Ask: ask, Min: gen.Range(rt, "min", 1, ask), Client: rapid.StringMatching(`[a-z]{0,4}`).Draw(rt, "client")}
-			nraw := gen.OneOf(rt, "nraw", 1, 2, 2, 3, 3, 4, 5, 6)
-			used := map[uint64]bool{}
-			prev := 0
-			for j := 0; j < nraw; j++ {
-				ds := gen.Uniform(rt, "ds", nds)
-				if j > 0 && gen.Chance(rt, "repeat", 1, 3) {
-					ds = prev
-				}
-				prev = ds
-				eid := uint64(gen.OneOf(rt, "eid", 1, 2, 3, 4, 5, 6, 7, 100, 255, 256, 65535, 1<<31-1))
-				for used[eid] {
-					eid++
-				}
-				used[eid] = true
-				raw := c19Raw{DS: ds, EID: eid, Calldata: rapid.SliceOfN(rapid.Byte(), 0, 20).Draw(rt, "calldata")}
-				switch gen.Pick(rt, "kind", 5, 3, 2) {
-				case 0:
-					raw.Kind, raw.Code = "ok", 0
-				case 1:
-					raw.Kind, raw.Code = "ok", gen.OneOf[uint32](rt, "code", 1, 2, 111, 126, 255, 256, 1<<32-1)
-				default:
-					raw.Kind = "err"
-				}
-				raw.OutLen = gen.OneOf(rt, "outlen", 0, 0, 1, 8, 24, 100, 512, 600)
-				raw.OutSeed = gen.Uniform(rt, "outseed", 250)
-				raw.DelayUs = gen.OneOf(rt, "delay", 0, 0, 0, 20, 100, 400, 1500)
-				q.Raws = append(q.Raws, raw)
-			}
-			tx.Reqs = append(tx.Reqs, q)
-		}
-		c.Txs = append(c.Txs, tx)
+	used := map[int]bool{}
+	// how many rounds the same daemon lives through
+	nRounds := 1 + gen.Pick(rt, "nrounds", 45, 42, 13)
+	var prefer1 []int
+	if nRounds > 1 && gen.Chance(rt, "plan", 2, 3) {
+		// planned history: round 1 asks a data source on purpose, so that a later edit of it is an edit of something
+		// the daemon has already looked up
+		prefer1 = []int{gen.Uniform(rt, "planned", nds)}
 	}
+	c.Txs = genTxs(rt, nds, nActive, prefer1, used)
 	c.Rot = gen.Uniform(rt, "rot", 4)
 	c.Rev = gen.Chance(rt, "rev", 1, 3)
 	c.Ghost = gen.Chance(rt, "ghost", 1, 10)
 	c.MaxTry = gen.Range(rt, "maxtry", 1, 3)
-	switch gen.Pick(rt, "storefail", 60, 32, 8) {
-	case 1:
-		if c.MaxTry > 1 {
-			c.StoreFail = gen.Range(rt, "sf", 1, c.MaxTry-1)
-		}
-	case 2:
-		c.StoreFail = gen.Range(rt, "sfx", c.MaxTry, 2*c.MaxTry)
-	}
-	switch gen.Pick(rt, "datafail", 50, 30, 20) {
-	case 1:
-		if c.MaxTry > 1 {
-			c.DataFail = gen.Range(rt, "df", 1, c.MaxTry-1)
-		}
-	case 2:
-		c.DataFail = gen.Range(rt, "dfx", c.MaxTry, 3*c.MaxTry)
-	}
+	c.StoreFail, c.DataFail = genFails(rt, c.MaxTry)
 	c.Yield = gen.Chance(rt, "yield", 1, 2)
 	c.NKeys = gen.OneOf(rt, "nkeys", 1, 3)
 	c.Procs = gen.OneOf(rt, "procs", 0, 0, 1, 2, 4, 16)
+	if gen.Chance(rt, "late1", 1, 10) {
+		c.LateEdits = append(c.LateEdits, genEdit(rt, nds, c.NVals, minLen, sortedKeys(used), &c.ExclShort))
+	}
+	for r := 1; r < nRounds; r++ {
+		rd := c19Round{}
+		usedList := sortedKeys(used)
+		edited := map[int]bool{}
+		for i, n := 0, gen.OneOf(rt, "nedits", 0, 1, 1, 1, 2, 2, 3); i < n; i++ {
+			e := genEdit(rt, nds, c.NVals, minLen, usedList, &c.ExclShort)
+			rd.Edits = append(rd.Edits, e)
+			if e.Kind == "exec" && !e.BadSender && used[mod(e.DS, nds)] {
+				edited[mod(e.DS, nds)] = true
+			}
+		}
+		rd.Txs = genTxs(rt, nds, nActive, sortedKeys(edited), used)
+		rd.Mode = gen.OneOf(rt, "rmode", "direct", "direct", "direct-go", "tx", "tx", "tx-go")
+		rd.Rot = gen.Uniform(rt, "rrot", 4)
+		rd.Rev = gen.Chance(rt, "rrev", 1, 3)
+		rd.Ghost = gen.Chance(rt, "rghost", 1, 10)
+		if gen.Chance(rt, "rfails", 1, 2) {
+			rd.StoreFail, rd.DataFail = genFails(rt, c.MaxTry)
+		}
+		if gen.Chance(rt, "rlate", 1, 8) {
+			rd.LateEdits = append(rd.LateEdits, genEdit(rt, nds, c.NVals, minLen, sortedKeys(used), &c.ExclShort))
+		}
+		c.Rounds = append(c.Rounds, rd)
+	}
 	return c
 }
 
@@ -430,18 +569,24 @@ func (s *rpcStub) ABCIQuery(_ context.Context, path string, data cmtbytes.HexByt
 
 type execKey struct{ rid, eid uint64 }
 
+// execAccept is what the executor may be handed for one raw request: the executable of its data source when the
+// request was made (the hash the raw_request event carries) or when the daemon handles it.
+type execAccept struct{ reqHash, handleHash string }
+
 type execStub struct {
 	inflight *int64
-	outcomes map[execKey]c19Raw
-	dsOf     map[execKey]uint64
-	execs    map[uint64][]byte // data source id -> executable
 
 	mu          sync.Mutex
+	outcomes    map[execKey]c19Raw
+	accept      map[execKey]execAccept
 	calls       map[execKey]int
+	gotHash     map[execKey]string // hash of the executable handed over (last call)
 	errServed   int
 	wrongExec   int
 	wrongArg    int
 	unknownCall int
+	atReqTime   int // calls handed the request-time executable where it differs from the handling-time one
+	atHandle    int // calls handed the handling-time executable where it differs from the request-time one
 }
 
 func envStr(env interface{}, k string) string {
@@ -459,6 +604,7 @@ func (e *execStub) Exec(code []byte, arg string, env interface{}) (executor.Exec
 	rid, _ := strconv.ParseUint(envStr(env, "BAND_REQUEST_ID"), 10, 64)
 	eid, _ := strconv.ParseUint(envStr(env, "BAND_EXTERNAL_ID"), 10, 64)
 	k := execKey{rid, eid}
+	h := filecache.GetFilename(code)
 	e.mu.Lock()
 	raw, ok := e.outcomes[k]
 	if !ok {
@@ -467,8 +613,16 @@ func (e *execStub) Exec(code []byte, arg string, env interface{}) (executor.Exec
 		return executor.ExecResult{}, errors.New("stub: unknown raw request")
 	}
 	e.calls[k]++
-	if !bytes.Equal(code, e.execs[e.dsOf[k]]) {
+	e.gotHash[k] = h
+	acc := e.accept[k]
+	switch {
+	case h != acc.reqHash && h != acc.handleHash:
 		e.wrongExec++
+	case acc.reqHash == acc.handleHash:
+	case h == acc.reqHash:
+		e.atReqTime++
+	default:
+		e.atHandle++
 	}
 	if arg != string(raw.Calldata) {
 		e.wrongArg++
@@ -530,12 +684,163 @@ func journal(c c19Case) string {
 // ---- run ---------------------------------------------------------------------------------------------
 
 type reqModel struct {
-	id       uint64
-	q        c19Req
-	selected bool
+	id         uint64
+	q          c19Req
+	selected   bool
+	round      int
+	reqHash    []string // per raw request: hash of the data source's executable when the request was made
+	handleHash []string // per raw request: hash of the data source's executable when the daemon handles it
+}
+
+type dsVer struct {
+	exec []byte
+	hash string
 }
 
 const quiesceGuard = 20 * time.Second
+
+// c19World is the state of one case: the chain, the one long-lived daemon and the harness' model of both.
+type c19World struct {
+	c     c19Case
+	v     *pbt.Verdict
+	ch    *sim.Chain
+	nds   int
+	myVal sdk.ValAddress
+
+	cur        map[uint64]dsVer // model of the chain: data source id -> current executable
+	seenHash   map[string]bool  // every file hash the chain has been given so far
+	cachedHash map[string]bool  // files the harness put into the daemon's file cache
+	permHash   map[string]bool  // files the node never serves
+	pre        filecache.Cache
+
+	inflight int64
+	rpc      *rpcStub
+	ex       *execStub
+	yc       *yoda.Context
+	yl       *yoda.Logger
+
+	models   []*reqModel
+	byID     map[uint64]*reqModel
+	reported map[uint64]int    // request id -> reports queued so far (all rounds)
+	lookedUp map[uint64]string // data source id -> hash at the daemon's previous look-up (selected request handled)
+
+	// statistics over all rounds
+	roundsRun, selectedN, maxRaws, dropsExhausted, loadFailures, loadAmbiguous, reports int
+	failedTx, storeExhausted, short, hit, severalTxs                                    bool
+	editsApplied, editsRefused, editsHashChanged, editsSameBytes, editsNoMod            int
+	editsFeeOnly, lateHashChanged, betweenHashChanged                                   int
+	askedAgainRaws, askedAgainRan, askedUneditedAgain                                   int
+	modes                                                                               map[string]bool
+}
+
+// applyEdits sends one MsgEditDataSource transaction per edit in one block and moves the model along.
+func (w *c19World) applyEdits(edits []c19Edit, late bool, ri int) bool {
+	if len(edits) == 0 {
+		return true
+	}
+	v, ch := w.v, w.ch
+	owner := ch.Users[0]
+	model := map[uint64]dsVer{}
+	for id, d := range w.cur {
+		model[id] = d
+	}
+	type plan struct {
+		e       c19Edit
+		id      uint64
+		before  dsVer
+		after   dsVer
+		refused bool
+	}
+	var plans []plan
+	var txs [][]byte
+	for _, e := range edits {
+		id := uint64(1 + mod(e.DS, w.nds))
+		before := model[id]
+		after := before
+		var exe []byte
+		switch e.Kind {
+		case "exec":
+			exe = execBytes(c19DS{Len: e.Len, Seed: e.Seed})
+			after = dsVer{exec: exe, hash: filecache.GetFilename(exe)}
+		case "same":
+			exe = before.exec
+		default:
+			exe = oracletypes.DoNotModifyBytes
+		}
+		sender := owner
+		if e.BadSender {
+			sender, after = ch.Vals[0], before
+		}
+		treasury := owner.Addr
+		if e.Treasury > 0 {
+			treasury = ch.Vals[mod(e.Treasury-1, len(ch.Vals))].Addr
+		}
+		fee := sdk.Coins{}
+		if e.Fee > 0 {
+			fee = sdk.NewCoins(sdk.NewInt64Coin("uband", e.Fee))
+		}
+		msg := oracletypes.NewMsgEditDataSource(oracletypes.DataSourceID(id), fmt.Sprintf("ds%d", id), "edited", exe, fee, treasury, owner.Addr, sender.Addr)
+		txs = append(txs, ch.SignTx(sender, msg))
+		plans = append(plans, plan{e: e, id: id, before: before, after: after, refused: e.BadSender})
+		model[id] = after
+	}
+	res, err := ch.Block(txs, 2*time.Second)
+	if err != nil || len(res.Resp.TxResults) != len(plans) {
+		v.Failf("harness", "edit block failed: %v", err)
+		return false
+	}
+	for i, p := range plans {
+		tr := res.Resp.TxResults[i]
+		if (tr.Code != 0) != p.refused {
+			v.Failf("harness", "MsgEditDataSource %d (%s, bad sender %v): code %d log %q", p.id, p.e.Kind, p.e.BadSender, tr.Code, tr.Log)
+			return false
+		}
+		if p.refused {
+			w.editsRefused++
+			continue
+		}
+		w.editsApplied++
+		switch {
+		case p.after.hash != p.before.hash:
+			w.editsHashChanged++
+			if late {
+				w.lateHashChanged++
+			} else if ri > 0 {
+				w.betweenHashChanged++
+			}
+		case p.e.Kind == "nomod":
+			w.editsNoMod++
+		default:
+			w.editsSameBytes++ // "same", or new bytes that happen to be the old ones
+		}
+		if p.after.hash == p.before.hash && p.e.Fee > 0 {
+			w.editsFeeOnly++
+		}
+		if p.e.Kind == "exec" && !w.seenHash[p.after.hash] {
+			// a file the chain has never seen: its fetch/cache fate is part of the case
+			w.seenHash[p.after.hash] = true
+			if p.e.PermFail {
+				w.rpc.mu.Lock()
+				w.permHash[p.after.hash] = true
+				w.rpc.mu.Unlock()
+			}
+			if p.e.Cached {
+				w.pre.AddFile(p.after.exec)
+				w.cachedHash[p.after.hash] = true
+			}
+		}
+	}
+	w.cur = model
+	// the data sources are the chain's: what the node holds must be what the model says
+	for id, d := range w.cur {
+		ds, derr := ch.App.OracleKeeper.GetDataSource(ch.Ctx(), oracletypes.DataSourceID(id))
+		if derr != nil || ds.Filename != d.hash || !bytes.Equal(ch.App.OracleKeeper.GetFile(ds.Filename), d.exec) {
+			v.Failf("harness", "data source %d after the edits is not what the model expects: %v", id, derr)
+			return false
+		}
+	}
+	return true
+}
 
 func runC19(c c19Case) *pbt.Verdict {
 	v := &pbt.Verdict{}
@@ -545,7 +850,12 @@ func runC19(c c19Case) *pbt.Verdict {
 		}
 	}
 	// sanitise (a hand-edited replay must not be able to panic the harness)
-	if c.NVals < 1 || c.NVals > 8 || len(c.Active) != c.NVals || len(c.DSs) == 0 || len(c.DSs) > 16 || len(c.Txs) > 8 {
+	bad := c.NVals < 1 || c.NVals > 8 || len(c.Active) != c.NVals || len(c.DSs) == 0 || len(c.DSs) > 16 || len(c.Txs) > 8 ||
+		len(c.Rounds) > 4 || len(c.LateEdits) > 8
+	for _, rd := range c.Rounds {
+		bad = bad || len(rd.Txs) > 8 || len(rd.Edits) > 8 || len(rd.LateEdits) > 8
+	}
+	if bad {
 		v.Class("malformed-case")
 		return v
 	}
@@ -560,6 +870,12 @@ func runC19(c c19Case) *pbt.Verdict {
 	if c.ExclShort > 0 {
 		v.Count("excluded_known", int64(c.ExclShort))
 	}
+	rounds := append([]c19Round{{LateEdits: c.LateEdits, Txs: c.Txs, Mode: c.Mode, Rot: c.Rot, Rev: c.Rev, Ghost: c.Ghost,
+		StoreFail: c.StoreFail, DataFail: c.DataFail}}, c.Rounds...)
+
+	w := &c19World{c: c, v: v, nds: nds, cur: map[uint64]dsVer{}, seenHash: map[string]bool{}, cachedHash: map[string]bool{},
+		permHash: map[string]bool{}, byID: map[uint64]*reqModel{}, reported: map[uint64]int{}, lookedUp: map[uint64]string{},
+		modes: map[string]bool{}}
 
 	// -- chain ------------------------------------------------------------------------------------------
 	vals := make([]sim.ValSpec, c.NVals)
@@ -567,20 +883,17 @@ func runC19(c c19Case) *pbt.Verdict {
 		vals[i] = sim.ValSpec{Tokens: int64(10+i) * 1_000_000}
 	}
 	var dss []sim.DSSpec
-	execs := map[uint64][]byte{}
-	hashOf := map[uint64]string{}
-	cachedHash, permHash := map[string]bool{}, map[string]bool{}
 	for i, d := range c.DSs {
 		b := execBytes(d)
 		dss = append(dss, sim.DSSpec{Exec: b, Treasury: 0})
-		execs[uint64(i+1)] = b
 		h := filecache.GetFilename(b)
-		hashOf[uint64(i+1)] = h
+		w.cur[uint64(i+1)] = dsVer{exec: b, hash: h}
+		w.seenHash[h] = true
 		if d.Cached {
-			cachedHash[h] = true
+			w.cachedHash[h] = true
 		}
 		if d.PermFail {
-			permHash[h] = true
+			w.permHash[h] = true
 		}
 	}
 	op := oracletypes.DefaultParams()
@@ -591,6 +904,8 @@ func runC19(c c19Case) *pbt.Verdict {
 		return v
 	}
 	defer ch.Close()
+	w.ch = ch
+	w.myVal = ch.Vals[me].Val
 	var txs [][]byte
 	for i, a := range c.Active {
 		if a {
@@ -602,17 +917,78 @@ func runC19(c c19Case) *pbt.Verdict {
 		return v
 	}
 	// the data sources are the chain's: what the node serves for a file must be what was registered
-	for id, b := range execs {
+	for id, d := range w.cur {
 		ds, derr := ch.App.OracleKeeper.GetDataSource(ch.Ctx(), oracletypes.DataSourceID(id))
-		if derr != nil || ds.Filename != hashOf[id] || len(b) == 0 {
+		if derr != nil || ds.Filename != d.hash || len(d.exec) == 0 {
 			v.Failf("harness", "data source %d not registered as expected: %v", id, derr)
 			return v
 		}
 	}
 
+	// -- daemon: ONE Context and one file cache directory for the whole case -------------------------------
+	cacheDir, err := os.MkdirTemp("", "verif-c19-cache-")
+	if err != nil {
+		v.Failf("harness", "temp dir: %v", err)
+		return v
+	}
+	defer os.RemoveAll(cacheDir)
+	w.pre = filecache.New(cacheDir)
+	for _, d := range w.cur {
+		if w.cachedHash[d.hash] {
+			w.pre.AddFile(d.exec)
+		}
+	}
+	w.rpc = &rpcStub{app: ch.App, inflight: &w.inflight, yield: c.Yield, permFail: w.permHash}
+	w.ex = &execStub{inflight: &w.inflight, outcomes: map[execKey]c19Raw{}, accept: map[execKey]execAccept{}, calls: map[execKey]int{},
+		gotHash: map[execKey]string{}}
+	kb, err := keyringFor(c.NKeys)
+	if err != nil {
+		v.Failf("harness", "keyring: %v", err)
+		return v
+	}
+	w.yc, err = yoda.VerifNewContext(ch.App, w.rpc, w.myVal, w.ex, kb, ch.Cfg.ChainID, cacheDir, uint64(c.MaxTry), 50*time.Microsecond, 256)
+	if err != nil {
+		v.Failf("harness", "VerifNewContext: %v", err)
+		return v
+	}
+	w.yl = yoda.VerifLogger(log.NewNopLogger())
+
+	if c.Procs > 0 && c.Procs <= 64 {
+		old := runtime.GOMAXPROCS(c.Procs)
+		defer runtime.GOMAXPROCS(old)
+	}
+
+	for ri, rd := range rounds {
+		override, cont := w.round(ri, rd)
+		if override != nil {
+			return override
+		}
+		if !cont {
+			break
+		}
+	}
+	if v.Violation != "" && strings.HasPrefix(v.Signature, "harness") {
+		return v
+	}
+	w.stats(len(rounds))
+	return v
+}
+
+// round runs one round on the long-lived daemon. It returns a verdict that replaces the case's verdict (an
+// inconclusive case), or whether the next round may run.
+func (w *c19World) round(ri int, rd c19Round) (*pbt.Verdict, bool) {
+	v, ch, c, nds := w.v, w.ch, w.c, w.nds
+	myVal := w.myVal
+
+	// -- chain-side edits before the requests of this round ------------------------------------------------
+	if !w.applyEdits(rd.Edits, false, ri) {
+		return nil, false
+	}
+	reqVer := w.cur
+
 	// -- requests ---------------------------------------------------------------------------------------
-	txs = nil
-	for _, t := range c.Txs {
+	var txs [][]byte
+	for _, t := range rd.Txs {
 		var msgs []sdk.Msg
 		for qi, q := range t.Reqs {
 			ask := q.Ask
@@ -637,14 +1013,12 @@ func runC19(c c19Case) *pbt.Verdict {
 	res, err := ch.Block(txs, 3*time.Second)
 	if err != nil {
 		v.Failf("harness", "request block failed: %v", err)
-		return v
+		return nil, false
 	}
-	myVal := ch.Vals[me].Val
 	var models []*reqModel
-	byID := map[uint64]*reqModel{}
 	var txResults []abci.TxResult
-	ti, failedTx := 0, false
-	for _, t := range c.Txs {
+	ti := 0
+	for _, t := range rd.Txs {
 		if len(t.Reqs) == 0 {
 			continue
 		}
@@ -657,9 +1031,9 @@ func runC19(c c19Case) *pbt.Verdict {
 		if tr.Code != 0 {
 			if !t.Bad {
 				v.Failf("harness", "request tx rejected by the chain: code %d log %q", tr.Code, tr.Log)
-				return v
+				return nil, false
 			}
-			failedTx = true
+			w.failedTx = true
 			continue
 		}
 		var reqEvs, rawEvs []abci.Event
@@ -673,92 +1047,78 @@ func runC19(c c19Case) *pbt.Verdict {
 		}
 		if len(reqEvs) != len(t.Reqs) {
 			v.Failf("harness", "tx has %d request events for %d request messages", len(reqEvs), len(t.Reqs))
-			return v
+			return nil, false
 		}
 		rawPos := 0
 		for qi, q := range t.Reqs {
 			id, perr := strconv.ParseUint(sim.Attr(reqEvs[qi], oracletypes.AttributeKeyID), 10, 64)
-			if perr != nil || byID[id] != nil {
+			if perr != nil || w.byID[id] != nil {
 				v.Failf("harness", "bad request id in event: %q", sim.Attr(reqEvs[qi], oracletypes.AttributeKeyID))
-				return v
+				return nil, false
 			}
-			m := &reqModel{id: id, q: q}
+			m := &reqModel{id: id, q: q, round: ri}
 			for _, val := range sim.Attrs(reqEvs[qi], oracletypes.AttributeKeyValidator) {
 				if val == myVal.String() {
 					m.selected = true
 				}
 			}
-			// the chain's raw requests must be the ones this case describes (external id, data source, calldata)
+			// the chain's raw requests must be the ones this case describes (external id, data source, calldata, and
+			// the hash of the data source's executable at this moment)
 			for _, r := range q.Raws {
 				if rawPos >= len(rawEvs) {
 					v.Failf("harness", "request %d: missing raw_request event", id)
-					return v
+					return nil, false
 				}
 				e := rawEvs[rawPos]
 				rawPos++
+				did := uint64(1 + mod(r.DS, nds))
 				if sim.Attr(e, oracletypes.AttributeKeyExternalID) != fmt.Sprint(r.EID) ||
-					sim.Attr(e, oracletypes.AttributeKeyDataSourceID) != fmt.Sprint(1+mod(r.DS, nds)) ||
-					sim.Attr(e, oracletypes.AttributeKeyDataSourceHash) != hashOf[uint64(1+mod(r.DS, nds))] ||
+					sim.Attr(e, oracletypes.AttributeKeyDataSourceID) != fmt.Sprint(did) ||
+					sim.Attr(e, oracletypes.AttributeKeyDataSourceHash) != reqVer[did].hash ||
 					sim.Attr(e, oracletypes.AttributeKeyCalldata) != string(r.Calldata) {
-					v.Failf("harness", "request %d: raw_request event %v does not match the case (eid %d ds %d)", id, e, r.EID, 1+mod(r.DS, nds))
-					return v
+					v.Failf("harness", "request %d: raw_request event %v does not match the case (eid %d ds %d)", id, e, r.EID, did)
+					return nil, false
 				}
+				m.reqHash = append(m.reqHash, reqVer[did].hash)
 			}
 			models = append(models, m)
-			byID[id] = m
+			w.models = append(w.models, m)
+			w.byID[id] = m
 		}
 	}
 
-	// -- daemon -----------------------------------------------------------------------------------------
-	cacheDir, err := os.MkdirTemp("", "verif-c19-cache-")
-	if err != nil {
-		v.Failf("harness", "temp dir: %v", err)
-		return v
+	// -- chain-side edits between the requests and their handling ------------------------------------------
+	if !w.applyEdits(rd.LateEdits, true, ri) {
+		return nil, false
 	}
-	defer os.RemoveAll(cacheDir)
-	pre := filecache.New(cacheDir)
-	for id, b := range execs {
-		if cachedHash[hashOf[id]] {
-			pre.AddFile(b)
-		}
-	}
-	var inflight int64
-	rpc := &rpcStub{app: ch.App, inflight: &inflight, yield: c.Yield, permFail: permHash, storeLeft: c.StoreFail, dataLeft: c.DataFail}
-	ex := &execStub{inflight: &inflight, outcomes: map[execKey]c19Raw{}, dsOf: map[execKey]uint64{}, execs: execs, calls: map[execKey]int{}}
+	w.ex.mu.Lock()
 	for _, m := range models {
-		for _, r := range m.q.Raws {
-			ex.outcomes[execKey{m.id, r.EID}] = r
-			ex.dsOf[execKey{m.id, r.EID}] = uint64(1 + mod(r.DS, nds))
+		for j, r := range m.q.Raws {
+			did := uint64(1 + mod(r.DS, nds))
+			m.handleHash = append(m.handleHash, w.cur[did].hash)
+			w.ex.outcomes[execKey{m.id, r.EID}] = r
+			w.ex.accept[execKey{m.id, r.EID}] = execAccept{reqHash: m.reqHash[j], handleHash: w.cur[did].hash}
 		}
 	}
-	kb, err := keyringFor(c.NKeys)
-	if err != nil {
-		v.Failf("harness", "keyring: %v", err)
-		return v
-	}
-	yc, err := yoda.VerifNewContext(ch.App, rpc, myVal, ex, kb, ch.Cfg.ChainID, cacheDir, uint64(c.MaxTry), 50*time.Microsecond, 256)
-	if err != nil {
-		v.Failf("harness", "VerifNewContext: %v", err)
-		return v
-	}
-	yl := yoda.VerifLogger(log.NewNopLogger())
+	w.ex.mu.Unlock()
 
-	if c.Procs > 0 && c.Procs <= 64 {
-		old := runtime.GOMAXPROCS(c.Procs)
-		defer runtime.GOMAXPROCS(old)
-	}
+	// -- the daemon handles this round's requests -----------------------------------------------------------
+	w.rpc.mu.Lock()
+	w.rpc.storeLeft, w.rpc.dataLeft = rd.StoreFail, rd.DataFail
+	w.rpc.mu.Unlock()
+	yc, yl := w.yc, w.yl
 
 	ids := make([]uint64, 0, len(models)+1)
 	for _, m := range models {
 		ids = append(ids, m.id)
 	}
-	if c.Ghost {
-		ids = append(ids, uint64(len(models))+7) // no such request on the chain
+	if rd.Ghost {
+		ids = append(ids, uint64(len(w.models))+7) // no such request on the chain
 	}
 	if n := len(ids); n > 0 {
-		r := mod(c.Rot, n)
+		r := mod(rd.Rot, n)
 		ids = append(append([]uint64{}, ids[r:]...), ids[:r]...)
-		if c.Rev {
+		if rd.Rev {
 			for i, j := 0, n-1; i < j; i, j = i+1, j-1 {
 				ids[i], ids[j] = ids[j], ids[i]
 			}
@@ -769,7 +1129,7 @@ func runC19(c c19Case) *pbt.Verdict {
 		order[i] = i
 	}
 	if n := len(order); n > 0 {
-		r := mod(c.Rot, n)
+		r := mod(rd.Rot, n)
 		order = append(append([]int{}, order[r:]...), order[:r]...)
 	}
 
@@ -784,16 +1144,12 @@ func runC19(c c19Case) *pbt.Verdict {
 			baseline, same = n, 0
 		}
 	}
-	handled := map[uint64]bool{}
-	for _, m := range models {
-		handled[m.id] = true
-	}
 	// The entry points run in a goroutine of their own so that a daemon call that never returns makes the case
 	// inconclusive instead of hanging the harness.
 	var launched int32
 	go func() {
 		defer atomic.StoreInt32(&launched, 1)
-		switch c.Mode {
+		switch rd.Mode {
 		case "direct":
 			for _, id := range ids {
 				yoda.VerifHandleRequest(yc, yl, oracletypes.RequestID(id))
@@ -812,7 +1168,7 @@ func runC19(c c19Case) *pbt.Verdict {
 			}
 		}
 	}()
-	v.Class("mode:" + c.Mode)
+	w.modes[rd.Mode] = true
 
 	// quiescence: all entry points returned, no stub call in flight and the goroutine count back at (or below)
 	// the baseline, seen twice
@@ -820,7 +1176,7 @@ func runC19(c c19Case) *pbt.Verdict {
 	deadline := time.Now().Add(quiesceGuard)
 	sleep := 20 * time.Microsecond
 	for streak := 0; ; {
-		if atomic.LoadInt32(&launched) == 1 && atomic.LoadInt64(&inflight) == 0 && runtime.NumGoroutine() <= baseline {
+		if atomic.LoadInt32(&launched) == 1 && atomic.LoadInt64(&w.inflight) == 0 && runtime.NumGoroutine() <= baseline {
 			streak++
 			if streak >= 2 {
 				quiet = true
@@ -839,22 +1195,32 @@ func runC19(c c19Case) *pbt.Verdict {
 		}
 	}
 	if !quiet {
-		v.Class("inconclusive")
-		return v
+		iv := &pbt.Verdict{}
+		iv.Class("inconclusive")
+		return iv, false
 	}
 	msgs := yoda.VerifDrain(yc)
+	w.roundsRun++
+	w.reports += len(msgs)
 
 	// -- oracle -----------------------------------------------------------------------------------------
-	rpc.mu.Lock()
-	storeFails, dataFails, permFails, dataOK, rpcBad := rpc.storeFails, rpc.dataFails, rpc.permFails, rpc.dataOK, rpc.bad
-	rpc.mu.Unlock()
-	ex.mu.Lock()
-	calls := ex.calls
-	errServed, wrongExec, wrongArg, unknownCall := ex.errServed, ex.wrongExec, ex.wrongArg, ex.unknownCall
-	ex.mu.Unlock()
+	w.rpc.mu.Lock()
+	rpcBad := w.rpc.bad
+	w.rpc.mu.Unlock()
+	w.ex.mu.Lock()
+	calls := map[execKey]int{}
+	gotHash := map[execKey]string{}
+	for _, m := range models {
+		for _, r := range m.q.Raws {
+			k := execKey{m.id, r.EID}
+			calls[k], gotHash[k] = w.ex.calls[k], w.ex.gotHash[k]
+		}
+	}
+	unknownCall := w.ex.unknownCall
+	w.ex.mu.Unlock()
 	if rpcBad != "" {
 		v.Failf("harness", "rpc stub: %s", rpcBad)
-		return v
+		return nil, false
 	}
 	if unknownCall > 0 {
 		v.Failf("C19/unknown-exec", "the daemon ran the executor %d time(s) for a (request id, external id) that no request has", unknownCall)
@@ -862,10 +1228,13 @@ func runC19(c c19Case) *pbt.Verdict {
 	// A store query that fails max-try times in a row makes GetRequest/GetDataSourceHash give up; the daemon then
 	// returns without a report. The statement's 255 rule is about the executable, so in that region the check
 	// does not demand a report (drops are counted) but still demands that whatever is queued is right.
-	storeExhausted := c.StoreFail >= c.MaxTry
+	storeExhausted := rd.StoreFail >= c.MaxTry
+	if storeExhausted {
+		w.storeExhausted = true
+	}
 	// Query/Data failures beyond the retry budget may turn up to DataFail/MaxTry raw requests into load failures,
 	// which ones depends on the interleaving.
-	loadBudget := c.DataFail / c.MaxTry
+	loadBudget := rd.DataFail / c.MaxTry
 
 	got := map[uint64][]*oracletypes.MsgReportData{}
 	for _, m := range msgs {
@@ -874,6 +1243,7 @@ func runC19(c c19Case) *pbt.Verdict {
 			continue
 		}
 		got[uint64(m.RequestID)] = append(got[uint64(m.RequestID)], m)
+		w.reported[uint64(m.RequestID)]++
 	}
 	gotIDs := make([]uint64, 0, len(got))
 	for id := range got {
@@ -881,34 +1251,35 @@ func runC19(c c19Case) *pbt.Verdict {
 	}
 	sort.Slice(gotIDs, func(i, j int) bool { return gotIDs[i] < gotIDs[j] })
 	for _, id := range gotIDs {
-		m := byID[id]
+		m := w.byID[id]
 		switch {
 		case m == nil:
 			v.Failf("C19/unknown-request", "report queued for request %d which does not exist", id)
 		case !m.selected:
 			v.Failf("C19/unselected-report", "report queued for request %d which does not select validator %s", id, myVal)
-		case len(got[id]) > 1:
-			v.Failf("C19/duplicate", "%d reports queued for request %d", len(got[id]), id)
+		case w.reported[id] > 1:
+			v.Failf("C19/duplicate", "%d reports queued for request %d (round %d, request of round %d)", w.reported[id], id, ri+1, m.round+1)
+		case m.round != ri:
+			v.Failf("C19/duplicate", "report for request %d of round %d queued while handling round %d", id, m.round+1, ri+1)
 		}
 	}
-	selectedN, maxRaws, dropsExhausted, loadFailures := 0, 0, 0, 0
 	ctx := ch.Ctx()
 	for _, m := range models {
-		if !m.selected || !handled[m.id] {
+		if !m.selected {
 			continue
 		}
-		selectedN++
+		w.selectedN++
 		reps := got[m.id]
 		if len(reps) == 0 {
 			if storeExhausted {
-				dropsExhausted++
+				w.dropsExhausted++
 				continue
 			}
-			v.Failf("C19/dropped", "request %d selects %s but no report was queued (%d raw requests, mode %s)", m.id, myVal, len(m.q.Raws), c.Mode)
+			v.Failf("C19/dropped", "request %d (round %d) selects %s but no report was queued (%d raw requests, mode %s)", m.id, ri+1, myVal, len(m.q.Raws), rd.Mode)
 			continue
 		}
-		if len(m.q.Raws) > maxRaws {
-			maxRaws = len(m.q.Raws)
+		if len(m.q.Raws) > w.maxRaws {
+			w.maxRaws = len(m.q.Raws)
 		}
 		rep := reps[0]
 		if rep.Validator != myVal.String() {
@@ -921,20 +1292,42 @@ func runC19(c c19Case) *pbt.Verdict {
 		if len(rep.RawReports) != len(m.q.Raws) {
 			v.Failf("C19/raw-reports", "request %d: %d raw reports for %d raw requests", m.id, len(rep.RawReports), len(m.q.Raws))
 		}
-		for _, r := range m.q.Raws {
+		for j, r := range m.q.Raws {
 			rrs := byEID[r.EID]
 			if len(rrs) != 1 {
 				v.Failf("C19/raw-reports", "request %d: %d raw reports for external id %d, want exactly 1", m.id, len(rrs), r.EID)
 				continue
 			}
 			rr := rrs[0]
-			h := hashOf[uint64(1+mod(r.DS, nds))]
+			did := uint64(1 + mod(r.DS, nds))
+			hReq, hNow := m.reqHash[j], m.handleHash[j]
 			n := calls[execKey{m.id, r.EID}]
+			// did the daemon look this data source up before, and has its executable been replaced since?
+			prevHash, seenBefore := w.lookedUp[did]
+			if seenBefore && ri > 0 {
+				if prevHash != hNow {
+					w.askedAgainRaws++
+					if n >= 1 {
+						w.askedAgainRan++
+					}
+				} else {
+					w.askedUneditedAgain++
+				}
+			}
 			if n > 1 {
 				v.Count("exec_called_twice", 1)
 			}
 			if n >= 1 {
-				// the executor ran: the report carries its exit code and output, or 255 if it returned an error
+				// the executor ran. It must have been handed the executable of THIS data source: the one the chain
+				// held when the request was made (raw_request event) or holds now; anything else (e.g. an executable
+				// the owner has replaced before the request was even made) is not a run of the data source.
+				h := gotHash[execKey{m.id, r.EID}]
+				if h != hReq && h != hNow {
+					v.Failf("C19/wrong-executable", "request %d (round %d) eid %d data source %d: the executor was handed executable %.12s, "+
+						"the data source's executable is %.12s (at request time %.12s); previous look-up by the daemon saw %.12s",
+						m.id, ri+1, r.EID, did, h, hNow, hReq, prevHash)
+				}
+				// the report carries its exit code and output, or 255 if it returned an error
 				if r.Kind == "err" {
 					if rr.ExitCode != 255 {
 						v.Failf("C19/outcome", "request %d eid %d: executor returned an error but exit code is %d, want 255", m.id, r.EID, rr.ExitCode)
@@ -943,7 +1336,7 @@ func runC19(c c19Case) *pbt.Verdict {
 					v.Failf("C19/outcome", "request %d eid %d: report (exit %d, %d bytes) differs from the executor's result (exit %d, %d bytes)",
 						m.id, r.EID, rr.ExitCode, len(rr.Data), r.Code, r.OutLen)
 				}
-				if permHash[h] && !cachedHash[h] {
+				if (h == hReq || h == hNow) && w.permHash[h] && !w.cachedHash[h] {
 					v.Failf("harness", "request %d eid %d: executor ran although the file can never be fetched", m.id, r.EID)
 				}
 				continue
@@ -952,16 +1345,20 @@ func runC19(c c19Case) *pbt.Verdict {
 			if rr.ExitCode != 255 {
 				v.Failf("C19/outcome", "request %d eid %d: the data source was not run but exit code is %d, want 255", m.id, r.EID, rr.ExitCode)
 			}
-			switch {
-			case cachedHash[h]:
+			switch h := hNow; {
+			case hReq != hNow:
+				// edited between request and handling: either file may have been the one that could not be loaded
+				w.loadAmbiguous++
+				w.loadFailures++
+			case w.cachedHash[h]:
 				v.Failf("C19/outcome", "request %d eid %d: executable is in the file cache but was not run", m.id, r.EID)
-			case permHash[h]:
-				loadFailures++
+			case w.permHash[h]:
+				w.loadFailures++
 			case loadBudget > 0:
 				loadBudget--
-				loadFailures++
+				w.loadFailures++
 			default:
-				v.Failf("C19/outcome", "request %d eid %d: executable was fetchable (injected Data failures %d, max try %d) but was not run", m.id, r.EID, c.DataFail, c.MaxTry)
+				v.Failf("C19/outcome", "request %d (round %d) eid %d: executable was fetchable (injected Data failures %d, max try %d) but was not run", m.id, ri+1, r.EID, rd.DataFail, c.MaxTry)
 			}
 			if !bytes.Equal(rr.Data, []byte("FAIL_TO_LOAD_DATA_SOURCE")) {
 				v.Count("load_failure_other_data", 1)
@@ -977,44 +1374,131 @@ func runC19(c c19Case) *pbt.Verdict {
 			v.Failf("C19/chain-reject", "request %d: chain's CheckValidReport rejects the report: %v", m.id, err)
 		}
 	}
+	// what the daemon has now looked up (it reads the data source of every raw request of a request it reports)
+	for _, m := range models {
+		if !m.selected || len(got[m.id]) == 0 {
+			continue
+		}
+		for j, r := range m.q.Raws {
+			w.lookedUp[uint64(1+mod(r.DS, nds))] = m.handleHash[j]
+		}
+	}
 
 	// A violation must not be an artefact of evaluating too early: if anything is still moving a moment later
 	// (a late report, a stub call), quiescence had not been reached and the case is inconclusive instead.
 	if v.Violation != "" {
 		time.Sleep(300 * time.Millisecond)
-		if late := yoda.VerifDrain(yc); len(late) > 0 || atomic.LoadInt64(&inflight) != 0 || runtime.NumGoroutine() > baseline {
+		if late := yoda.VerifDrain(yc); len(late) > 0 || atomic.LoadInt64(&w.inflight) != 0 || runtime.NumGoroutine() > baseline {
 			iv := &pbt.Verdict{}
 			iv.Class("inconclusive")
 			iv.Count("late_activity_after_quiescence", 1)
-			return iv
+			return iv, false
 		}
+		return nil, false
 	}
 
-	// -- statistics -------------------------------------------------------------------------------------
+	// -- per-round class material -------------------------------------------------------------------------
+	for _, m := range models {
+		if !m.selected {
+			continue
+		}
+		for j, r := range m.q.Raws {
+			if len(w.cur[uint64(1+mod(r.DS, nds))].exec) < 32 {
+				w.short = true
+			}
+			if w.cachedHash[m.handleHash[j]] {
+				w.hit = true
+			}
+		}
+	}
+	if len(txResults) > 1 && strings.HasPrefix(rd.Mode, "tx") {
+		w.severalTxs = true
+	}
+	return nil, true
+}
+
+// stats fills non-triviality, classes and counters from what all rounds did.
+func (w *c19World) stats(nRounds int) {
+	v := w.v
+	w.rpc.mu.Lock()
+	storeFails, dataFails, permFails, dataOK := w.rpc.storeFails, w.rpc.dataFails, w.rpc.permFails, w.rpc.dataOK
+	w.rpc.mu.Unlock()
+	w.ex.mu.Lock()
+	errServed, wrongExec, wrongArg, atReq, atHandle := w.ex.errServed, w.ex.wrongExec, w.ex.wrongArg, w.ex.atReqTime, w.ex.atHandle
+	w.ex.mu.Unlock()
+
 	injected := storeFails + dataFails + permFails + errServed
-	v.NonTrivial = maxRaws >= 2 && injected >= 1
-	v.Count("requests", int64(len(models)))
-	v.Count("selected_requests", int64(selectedN))
-	v.Count("reports", int64(len(msgs)))
+	v.NonTrivial = w.maxRaws >= 2 && injected >= 1
+	v.Count("requests", int64(len(w.models)))
+	v.Count("selected_requests", int64(w.selectedN))
+	v.Count("reports", int64(w.reports))
 	v.Count("rpc_failures_served", int64(storeFails+dataFails+permFails))
 	v.Count("executor_errors_served", int64(errServed))
-	v.Count("rpc_exhausted_drops", int64(dropsExhausted))
+	v.Count("rpc_exhausted_drops", int64(w.dropsExhausted))
 	v.Count("exec_wrong_executable", int64(wrongExec))
 	v.Count("exec_wrong_calldata", int64(wrongArg))
+	v.Count("rounds_run", int64(w.roundsRun))
+	v.Count("edits_applied", int64(w.editsApplied))
+	v.Count("edits_refused_non_owner", int64(w.editsRefused))
+	v.Count("edits_hash_changed", int64(w.editsHashChanged))
+	v.Count("edits_same_bytes", int64(w.editsSameBytes))
+	v.Count("edits_do_not_modify", int64(w.editsNoMod))
+	v.Count("edits_fee_only", int64(w.editsFeeOnly))
+	v.Count("edited_ds_asked_again_raws", int64(w.askedAgainRaws))
+	v.Count("edited_ds_asked_again_executed", int64(w.askedAgainRan))
+	v.Count("unedited_ds_asked_again_raws", int64(w.askedUneditedAgain))
+	v.Count("exec_got_request_time_executable", int64(atReq))
+	v.Count("exec_got_handling_time_executable", int64(atHandle))
+	v.Count("load_failure_ambiguous_hash", int64(w.loadAmbiguous))
+	for _, m := range []string{"direct", "direct-go", "tx", "tx-go"} {
+		if w.modes[m] {
+			v.Class("mode:" + m)
+		}
+	}
 	switch {
-	case len(models) == 0:
+	case len(w.models) == 0:
 		v.Class("no-request")
-	case selectedN == 0:
+	case w.selectedN == 0:
 		v.Class("not-selected")
-	case selectedN < len(models):
+	case w.selectedN < len(w.models):
 		v.Class("selected-some")
 	default:
 		v.Class("selected-all")
 	}
-	if failedTx {
+	if w.roundsRun > 1 {
+		v.Class("multi-round")
+	}
+	if w.betweenHashChanged > 0 {
+		v.Class("executable-edited-between-rounds")
+	}
+	if w.lateHashChanged > 0 {
+		v.Class("executable-edited-between-request-and-handling")
+	}
+	if w.askedAgainRaws > 0 {
+		v.Class("edited-ds-asked-again")
+	}
+	if w.askedAgainRan > 0 {
+		v.Class("edited-ds-asked-again-and-executed")
+	}
+	if w.askedUneditedAgain > 0 {
+		v.Class("unedited-ds-asked-again")
+	}
+	if w.editsSameBytes+w.editsNoMod > 0 {
+		v.Class("edit-keeps-hash")
+	}
+	if w.editsRefused > 0 {
+		v.Class("edit-refused")
+	}
+	if atReq > 0 {
+		v.Class("ran-request-time-executable")
+	}
+	if atHandle > 0 {
+		v.Class("ran-handling-time-executable")
+	}
+	if w.failedTx {
 		v.Class("failed-tx")
 	}
-	if storeExhausted {
+	if w.storeExhausted {
 		v.Class("store-exhausted")
 	}
 	if storeFails+dataFails > 0 {
@@ -1026,41 +1510,25 @@ func runC19(c c19Case) *pbt.Verdict {
 	if errServed > 0 {
 		v.Class("executor-error")
 	}
-	if loadFailures > 0 {
+	if w.loadFailures > 0 {
 		v.Class("load-failure")
 	}
-	v.Count("load_failure_reports", int64(loadFailures))
+	v.Count("load_failure_reports", int64(w.loadFailures))
 	if dataOK > 0 {
 		v.Class("cache-miss-fetched")
 	}
-	short, hit := false, false
-	for _, m := range models {
-		if !m.selected {
-			continue
-		}
-		for _, r := range m.q.Raws {
-			d := c.DSs[mod(r.DS, nds)]
-			if d.Len < 32 {
-				short = true
-			}
-			if cachedHash[hashOf[uint64(1+mod(r.DS, nds))]] {
-				hit = true
-			}
-		}
-	}
-	if short {
+	if w.short {
 		v.Class("short-executable")
 	}
-	if hit {
+	if w.hit {
 		v.Class("cache-hit")
 	}
-	if maxRaws >= 2 {
+	if w.maxRaws >= 2 {
 		v.Class("multi-raw")
 	}
-	if len(txResults) > 1 && strings.HasPrefix(c.Mode, "tx") {
+	if w.severalTxs {
 		v.Class("several-txs")
 	}
-	return v
 }
 
 func TestC19(t *testing.T) { pbt.Check(t, "C19", genC19, runC19) }
